@@ -29,7 +29,7 @@ import json
 import random
 import re
 
-from ..core import Check, Graph, MachineryError, main
+from ..core import Check, Graph, MachineryError, main, run_tlc
 from ..tlaval import to_tla
 
 CLAUSES = ["TransparentOut", "TransparentJac", "AtMostOnce", "SimpleKeepsLast", "ReopenSame", "Uncached"]
@@ -46,9 +46,13 @@ def tla_set(xs):
     return "{" + ", ".join(to_tla(x) for x in xs) + "}"
 
 
+def depth_of(b, kind, tol):
+    return b.get("depth_for", {}).get((kind, tol), b["depth"])
+
+
 def impl_cfg(kind, tol, b, *, ref=False, merge=False, inplace=False, collide=False, invariants=True):
     s = (f'CONSTANTS Kind = "{kind}"\n Tol = {tol}\n Scale = {SCALE}\n XV <- {b["lattice"]}\n NZ = {b["nz"]}\n'
-         f' Cells = {tla_set(sorted(CELLS0))}\n ZArgs = {tla_set(b["zargs"])}\n MaxDepth = {b["depth"]}\n'
+         f' Cells = {tla_set(sorted(CELLS0))}\n ZArgs = {tla_set(b["zargs"])}\n MaxDepth = {depth_of(b, kind, tol)}\n'
          f' RefIn = {to_tla(ref)}\n RefOut = {to_tla(ref)}\n SimpleMerge = {to_tla(merge)}\n'
          f' Inplace = {to_tla(inplace)}\n Collide = {to_tla(collide)}\n LinModes = {tla_set(b["linmodes"])}\n'
          f' ExecFlags = {tla_set(b["execflags"])}\n LitXs = {tla_set(b["litxs"])}\n'
@@ -131,62 +135,67 @@ def label(action, args):
     return f"{action}({', '.join(map(str, args))})" if args else action
 
 
-# ------------------------------------------------------------------ replay of a tour
+# ------------------------------------------------------------------ replay of a tour (worker processes)
 
-class Replay:
-    def __init__(self, ck, world, b):
-        self.ck = ck
-        self.world = world
-        self.b = b
-        self.n_paths = 0
-        self.n_steps = 0
-        self.n_drift = 0
-        self.next_id = 0
+def replay_job(job):
+    """Executed in a worker process: steps real gemseo objects through a chunk of tour paths.
+    -> {"traces": [...], "covered": [edge indices conforming], "exceptions": [...], "steps": n}"""
+    import logging
+    import traceback
+    import warnings
+    from pathlib import Path
 
-    def run_paths(self, graph, paths, kind, tol, inplace, covered, check_entries=True):
-        """-> list of traces {id, kind, tol, inplace, labels, events, drift}"""
-        from .c05_disc import Driver
+    logging.disable(logging.CRITICAL)
+    warnings.filterwarnings("ignore")
+    from .c05_disc import Driver, World
 
-        ck = self.ck
-        tolv = tol / SCALE
-        traces = []
-        for path in paths:
-            self.next_id += 1
-            drv = Driver(self.world, kind, tolv, inplace, ck.work, f"{kind}-{self.next_id}", CELLS0)
-            labels, events, drift = [], [], None
-            sig = {"kind": kind, "tolerance": "t" if tol else "0", "discipline": "inplace" if inplace else "fresh"}
+    b = job["bounds"]
+    kind, tol, inplace = job["kind"], job["tol"], job["inplace"]
+    world = World(LATTICES[b["lattice"]], SCALE, b["nz"])
+    graph = Graph(Path(job["dot"]))
+    work = Path(job["work"])
+    full_entries = kind in ("simple", "memLocal") or job["entries_every_step"]
+    out = {"traces": [], "covered": set(), "exceptions": [], "problems": [], "steps": 0}
+    drv = None
+    for n, path in enumerate(job["paths"]):
+        tid = job["first_id"] + n
+        drv = Driver(world, kind, tol / SCALE, inplace, work, f"{job['tag']}", CELLS0, reuse=drv)
+        labels, events, drift = [], [], None
+        for pos, k in enumerate(path):
+            _, dst, action, args = graph.edges[k]
+            labels.append(label(action, args))
             try:
-                for k in path:
-                    _, dst, action, args = graph.edges[k]
-                    labels.append(label(action, args))
-                    ok, res = ck.guard("NoException", dict(sig, action=action), drv.step, action, args)
-                    if not ok:
-                        break
-                    ev, problem = res
-                    events.append(ev)
-                    self.n_steps += 1
-                    if problem:
-                        ck.violation("BodyCalledOnce", dict(sig, action=action), {"labels": labels, "problem": problem})
-                    if drift is None:
-                        st = graph.states[dst]
-                        diffs = ret_differs(ev, st["ret"]) if action in CALLS else []
-                        if check_entries and kind != "none":
-                            diffs += entries_differ(drv.entries(), st["entries"])
-                            n = drv.n_entries()
-                            if n != len(st["entries"]):
-                                diffs.append(f"len(cache): impl {n} spec {len(st['entries'])}")
-                        if diffs:
-                            drift = {"step": len(events), "label": labels[-1], "diffs": diffs}
-                        else:
-                            covered.add(k)
-            finally:
-                drv.close()
-            self.n_paths += 1
-            if drift:
-                self.n_drift += 1
-            traces.append({"id": self.next_id, "kind": kind, "tol": tol, "inplace": inplace, "labels": labels,
-                           "events": events, "drift": drift})
-        return traces
+                ev, problem = drv.step(action, args)
+            except Exception as ex:  # noqa: BLE001  (an exception of gemseo on an allowed operation)
+                out["exceptions"].append({"id": tid, "labels": list(labels), "action": action,
+                                          "exception": type(ex).__name__, "repr": repr(ex),
+                                          "traceback": traceback.format_exc(limit=6)})
+                drv = None  # do not reuse a cache left in an unknown state
+                break
+            events.append(ev)
+            out["steps"] += 1
+            if problem:
+                out["problems"].append({"id": tid, "labels": list(labels), "action": action, "problem": problem})
+            if drift is None:
+                st = graph.states[dst]
+                diffs = ret_differs(ev, st["ret"]) if action in CALLS else []
+                if kind != "none":
+                    last = pos == len(path) - 1
+                    if full_entries or last or action in ("Reopen", "ClearCache", "SetCache", "MutateCell"):
+                        diffs += entries_differ(drv.entries(), st["entries"])
+                    n_e = drv.n_entries()
+                    if n_e != len(st["entries"]):
+                        diffs.append(f"len(cache): impl {n_e} spec {len(st['entries'])}")
+                if diffs:
+                    drift = {"step": len(events), "label": labels[-1], "diffs": diffs}
+                else:
+                    out["covered"].add(k)
+        out["traces"].append({"id": tid, "kind": kind, "tol": tol, "inplace": inplace, "labels": labels,
+                              "events": events, "drift": drift})
+    if drv is not None:
+        drv.close()
+    out["covered"] = sorted(out["covered"])
+    return out
 
 
 def follow_variant(graph, index, trace):
@@ -212,86 +221,177 @@ def bounds(ck):
     if ck.thorough:
         return {"lattice": "Lattice5", "nz": 2, "zargs": ["omit", "dflt", "alt"], "depth": 5,
                 "linmodes": ["all", "sub"], "execflags": [True, False], "litxs": [1, 3]}
-    return {"lattice": "Lattice4", "nz": 1, "zargs": ["omit", "dflt"], "depth": 4,
+    # TLCGet("level") <= depth: histories of depth-1 calls; one more for SimpleCache with a tolerance (cheap
+    # to execute), where the shortest refutation of the tolerance-merge rule has 4 steps
+    return {"lattice": "Lattice4", "nz": 1, "zargs": ["omit", "dflt"], "depth": 4, "depth_for": {("simple", TOLN): 5},
             "linmodes": ["all", "sub"], "execflags": [True, False], "litxs": [1]}
 
 
 REQUIRED = ("Execute", "ExecuteLit", "Linearize", "MutateCell", "SetDiff")
 
 
+class TLCJobs:
+    """Several TLC runs side by side (each -workers 1, own work directory); the bookkeeping of ck.tlc is
+    done in the main thread when the results are collected."""
+
+    def __init__(self, ck, parallel=6):
+        self.ck = ck
+        self.parallel = parallel
+        self.jobs = []
+
+    def add(self, key, module, cfg, *, need=(), expect_ok=True, count=True, **kw):
+        self.jobs.append((key, module, cfg, need, expect_ok, count, kw))
+
+    def run(self):
+        from concurrent.futures import ThreadPoolExecutor
+
+        ck = self.ck
+
+        def one(j):
+            key, module, cfg, need, expect_ok, count, kw = j
+            return run_tlc(module, cfg, ck.work / f"tlc-{key}", workers=1, **kw)
+
+        with ThreadPoolExecutor(self.parallel) as ex:
+            results = list(ex.map(one, self.jobs))
+        out = {}
+        for (key, module, cfg, need, expect_ok, count, kw), r in zip(self.jobs, results):
+            cov = {}
+            for m in _COV.finditer(r.out):
+                cov[m.group(1)] = cov.get(m.group(1), 0) + int(m.group(3))
+            ck.tlc_runs.append({"module": module, "run": key, "distinct": r.distinct, "generated": r.generated,
+                                "depth": r.depth, "wall_s": round(r.wall, 2), "coverage": cov})
+            if r.error or (r.rc != 0 and not r.violated):
+                raise MachineryError(f"TLC failed on {module} [{key}]: {r.error or r.out[-2000:]}")
+            if count:
+                ck.states += r.distinct
+                ck.transitions += r.generated
+            for a in need:
+                if not cov.get(a):
+                    raise MachineryError(f"vacuity: action {a} of {module} [{key}] never taken")
+            if expect_ok and r.violated:
+                raise MachineryError(f"specification {module} [{key}] violates {r.violated}:\n" + r.out[-3000:])
+            out[key] = r
+        self.jobs = []
+        return out
+
+
+def chunks(xs, n):
+    return [xs[i:i + n] for i in range(0, len(xs), n)]
+
+
 def run(ck: Check):
-    from .c05_disc import World
+    import multiprocessing as mp
+    from concurrent.futures import ProcessPoolExecutor
 
     rng = random.Random(ck.seed)
     b = bounds(ck)
-    world = World(LATTICES[b["lattice"]], SCALE, b["nz"])
-    rp = Replay(ck, world, b)
-
-    # ---- 0. the clauses alone: satisfiable, not vacuous (most liberal system)
-    for kind, tol in (("memShared", TOLN), ("hdf5", 0), ("simple", 0), ("none", 0)):
-        tlc_checked(ck, "DiscCache", abstract_cfg(kind, tol, 5 if ck.thorough else 4), workers=8, timeout=600,
-                    need=("AExecute", "ALinearize", "AMutate"))
-
     configs = [(k, t) for k in KINDS for t in ((0,) if k == "none" else (0, TOLN))]
-    all_traces = {}
-    stats = {}
+    variant_defs = [("memLocal", 0, "byRef", {"ref": True}, (False, True)),
+                    ("memLocal", TOLN, "byRef", {"ref": True}, (False, True)),
+                    ("simple", TOLN, "simpleMerge", {"merge": True}, (False,))]
+
+    # ---- 1. TLC.  (a) the clauses alone: satisfiable, not vacuous (the most liberal system);
+    #   (b) the implementation-shaped model satisfies every clause, exhaustively within the bounds, and
+    #       the same run dumps its labelled state graph; (c) the rules of the code that are switches of
+    #       the model: refuted by TLC, and their graph (no invariants) for classification
+    jobs = TLCJobs(ck)
+    for kind, tol in (("memShared", TOLN), ("hdf5", 0), ("simple", 0), ("none", 0)):
+        jobs.add(f"abs-{kind}-{tol}", "DiscCache", abstract_cfg(kind, tol, 5 if ck.thorough else 4), timeout=900,
+                 need=("AExecute", "ALinearize", "AMutate"))
     for kind, tol in configs:
-        # ---- 1. the implementation-shaped model satisfies every clause (exhaustive within the bounds);
-        #         the same run dumps the labelled state graph (workers=1: deterministic levels)
         need = REQUIRED + (("ClearCache",) if kind != "none" else ()) + (("Reopen",) if kind == "hdf5" else ()) \
             + (("SetCache",) if kind in ("simple", "memShared", "memLocal") else ())
-        tlc_checked(ck, "DiscCacheImpl", impl_cfg(kind, tol, b), need=need, workers=1, timeout=1500, dump=True)
-        g = Graph(ck.work / "DiscCacheImpl.dot")
-        paths = g.tour(max_len=b["depth"] + 2)
-        covered = set()
-        traces = []
-        flavours = (False, True) if kind != "none" else (False,)
+        jobs.add(f"impl-{kind}-{tol}", "DiscCacheImpl", impl_cfg(kind, tol, b), need=need, timeout=1500, dump=True)
+    for kind, tol, name, kw, flavours in variant_defs:
         for inplace in flavours:
-            traces += rp.run_paths(g, paths, kind, tol, inplace, covered)
-        all_traces[(kind, tol)] = (g, traces)
-        stats[f"{kind}/{'t' if tol else '0'}"] = {"states": len(g.states), "edges": len(g.edges), "paths": len(paths),
-                                                  "edges_conforming": len(covered),
-                                                  "drifting_paths": sum(1 for t in traces if t["drift"])}
-        for t in traces[:1]:
-            ck.sample({"kind": kind, "tol": tol, "labels": t["labels"], "events": t["events"]})
-
-    # ---- 2. the refuted rules of the code, as variants of the model: refutation + graph for classification
+            jobs.add(f"refute-{name}-{tol}-{inplace}", "DiscCacheImpl", impl_cfg(kind, tol, b, inplace=inplace, **kw),
+                     expect_ok=False, count=False, coverage=False, timeout=900)
+            jobs.add(f"graph-{name}-{tol}-{inplace}", "DiscCacheImpl",
+                     impl_cfg(kind, tol, b, inplace=inplace, invariants=False, **kw),
+                     count=False, coverage=False, timeout=900, dump=True)
+    import time
+    t0 = time.time()
+    res = jobs.run()
+    ck.extra["timing"] = {"tlc_models_s": round(time.time() - t0, 1)}
     variants = {}
-    for (kind, tol, name, kw) in (("memLocal", 0, "byRef", {"ref": True}), ("memLocal", TOLN, "byRef", {"ref": True}),
-                                  ("simple", TOLN, "simpleMerge", {"merge": True})):
-        for inplace in (False, True):
-            if name == "simpleMerge" and inplace:
-                continue
-            r = ck.tlc("DiscCacheImpl", impl_cfg(kind, tol, b, inplace=inplace, **kw), workers=1, timeout=900,
-                       expect_ok=False, count=False, coverage=False)
+    for kind, tol, name, kw, flavours in variant_defs:
+        for inplace in flavours:
+            r = res[f"refute-{name}-{tol}-{inplace}"]
             if not r.violated:
                 raise MachineryError(f"variant {name} ({kind}, tol {tol}) is not refuted by TLC: the switch is vacuous")
             ck.extra.setdefault("refuted_variants", []).append(
                 {"variant": name, "kind": kind, "tol": tol, "inplace": inplace, "violates": r.violated,
                  "counterexample": [a for a, _ in r.counterexample()][1:]})
-            ck.tlc("DiscCacheImpl", impl_cfg(kind, tol, b, inplace=inplace, invariants=False, **kw), workers=1,
-                   timeout=900, dump=True, count=False, coverage=False)
-            vg = Graph(ck.work / "DiscCacheImpl.dot")
+            vg = Graph(ck.work / f"tlc-graph-{name}-{tol}-{inplace}" / "DiscCacheImpl.dot")
             variants[(kind, tol, inplace)] = (name, vg, edge_index(vg))
+            if len(flavours) == 1:  # the variant does not depend on the discipline flavour
+                variants[(kind, tol, not inplace)] = variants[(kind, tol, inplace)]
+
+    # ---- 2. spec -> code: transition tours executed on the real objects (worker processes)
+    graphs, rjobs, first_id = {}, [], 1
+    for kind, tol in configs:
+        dot = ck.work / f"tlc-impl-{kind}-{tol}" / "DiscCacheImpl.dot"
+        g = Graph(dot)
+        paths = g.tour(max_len=depth_of(b, kind, tol) + 1)
+        graphs[(kind, tol)] = (g, paths)
+        for inplace, budget in plan(ck, kind, tol):
+            sel = paths
+            if budget is not None and len(paths) > budget:
+                sel = [paths[i] for i in sorted(rng.sample(range(len(paths)), budget))]
+            for ch in chunks(sel, 250):
+                rjobs.append({"kind": kind, "tol": tol, "inplace": inplace, "dot": str(dot), "paths": ch,
+                              "bounds": b, "work": str(ck.work), "tag": f"{kind}-{tol}-{len(rjobs)}",
+                              "first_id": first_id, "entries_every_step": ck.thorough})
+                first_id += len(ch)
+    t0 = time.time()
+    with ProcessPoolExecutor(8, mp_context=mp.get_context("fork")) as ex:
+        routs = list(ex.map(replay_job, rjobs))
+    ck.extra["timing"]["replay_s"] = round(time.time() - t0, 1)
+    all_traces = {c: [] for c in configs}
+    covered = {c: set() for c in configs}
+    n_steps = 0
+    for job, out in zip(rjobs, routs):
+        c = (job["kind"], job["tol"])
+        sig = {"kind": job["kind"], "tolerance": "t" if job["tol"] else "0",
+               "discipline": "inplace" if job["inplace"] else "fresh"}
+        all_traces[c] += out["traces"]
+        covered[c] |= set(out["covered"])
+        n_steps += out["steps"]
+        for e in out["exceptions"]:
+            ck.violation("NoException", dict(sig, action=e["action"], exception=e["exception"]), e)
+        for e in out["problems"]:
+            ck.violation("BodyCalledOnce", dict(sig, action=e["action"]), e)
+    stats = {}
+    for c in configs:
+        g, paths = graphs[c]
+        tr = all_traces[c]
+        stats[f"{c[0]}/{'t' if c[1] else '0'}"] = {
+            "states": len(g.states), "edges": len(g.edges), "tour_paths": len(paths), "paths_run": len(tr),
+            "edges_conforming": len(covered[c]), "paths_differing": sum(1 for t in tr if t["drift"])}
+        if tr:
+            ck.sample({"kind": c[0], "tol": c[1], "labels": tr[len(tr) // 2]["labels"], "events": tr[len(tr) // 2]["events"]},
+                      limit=9)
 
     # ---- 3. code -> spec: the clauses evaluated by TLC on every recorded trace
+    for c in configs:
+        f = ck.work / f"c05-traces-{c[0]}-{c[1]}.json"
+        f.write_text(json.dumps([{"id": t["id"], "events": t["events"]} for t in all_traces[c]] or
+                                [{"id": 0, "events": []}]))
+        jobs.add(f"trace-{c[0]}-{c[1]}", "DiscCacheTrace", trace_cfg(c[0], c[1], b), timeout=1500, coverage=False,
+                 env={"TRACE_FILE": str(f)})
+    t0 = time.time()
+    res = jobs.run()
+    ck.extra["timing"]["tlc_traces_s"] = round(time.time() - t0, 1)
     n_viol = 0
-    for (kind, tol), (g, traces) in all_traces.items():
-        if not traces:
-            continue
-        f = ck.work / f"c05-traces-{kind}-{tol}.json"
-        f.write_text(json.dumps([{"id": t["id"], "events": t["events"]} for t in traces]))
-        r = ck.tlc("DiscCacheTrace", trace_cfg(kind, tol, b), workers=1, timeout=1500, count=False, coverage=False,
-                   env={"TRACE_FILE": str(f)})
+    for (kind, tol) in configs:
+        r = res[f"trace-{kind}-{tol}"]
         reached, bad = {}, {}
         for v in r.printed():
             if isinstance(v, tuple) and v and v[0] == "TRACE":
                 reached[v[1]] = (v[2], v[3])
             elif isinstance(v, tuple) and v and v[0] == "BAD":
                 bad.setdefault(v[1], []).append((v[2], str(v[3])))
-        ck.states += r.distinct
-        ck.transitions += r.generated
-        for t in traces:
+        for t in all_traces[(kind, tol)]:
             if t["id"] not in reached:
                 raise MachineryError(f"no verdict for trace {t['id']}")
             got, total = reached[t["id"]]
@@ -302,7 +402,7 @@ def run(ck: Check):
                 continue
             n_viol += 1
             step = min(s for s, _ in bad[t["id"]])
-            clauses = sorted({c for s, c in bad[t["id"]] if s == step})
+            clauses = sorted({cl for s, cl in bad[t["id"]] if s == step})
             var = variants.get((kind, tol, t["inplace"]))
             explained = var[0] if var and follow_variant(var[1], var[2], t) else "none"
             for clause in clauses:
@@ -314,9 +414,9 @@ def run(ck: Check):
                               "lattice": list(LATTICES[b["lattice"]]), "scale": SCALE,
                               "tolerance": tol / SCALE})
     ck.extra["replay"] = stats
-    ck.extra["paths_replayed"] = rp.n_paths
-    ck.extra["steps_replayed"] = rp.n_steps
-    ck.extra["paths_differing_from_DiscCacheImpl"] = rp.n_drift
+    ck.extra["paths_replayed"] = sum(len(v) for v in all_traces.values())
+    ck.extra["steps_replayed"] = n_steps
+    ck.extra["paths_differing_from_DiscCacheImpl"] = sum(s["paths_differing"] for s in stats.values())
     ck.extra["traces_with_refuted_clause"] = n_viol
     ck.exhaustive = all(s["edges_conforming"] == s["edges"] for s in stats.values())
     ck.assumptions += [
@@ -324,7 +424,26 @@ def run(ck: Check):
         "HDF5Cache.clear() is only offered on a non-empty cache (KeyError on a never-written node, D13, is outside the statement)",
         "linearize(execute=False) is only offered right after a call at the same input (its documented precondition)",
         "outputs/Jacobians are identified with lattice points through an uncached twin (value table of G and J)",
+        "between two tour paths the cache object is emptied with clear() and reused (building a full cache costs 15-35 ms)",
     ]
+
+
+def plan(ck, kind, tol):
+    """Discipline flavours (inplace?) and number of tour paths executed per configuration (None = the whole
+    tour).  Quick tier: the whole tour on the cheap caches, a seeded sample on the caches that go through a
+    manager process or an HDF5 file; the buffer-reusing discipline only where a group could be kept by
+    reference (SimpleCache, local-memory cache)."""
+    if kind == "none":
+        return [(False, None)]
+    if ck.thorough:
+        return [(False, None), (True, None)]
+    if kind == "simple":
+        return [(False, None), (True, None if tol == 0 else 1500)]
+    if kind == "memLocal":
+        return [(False, None), (True, None)]
+    if kind == "memShared":
+        return [(False, 700)]
+    return [(False, 450)]
 
 
 if __name__ == "__main__":
